@@ -339,6 +339,34 @@ def e1_run(tier):
                         result["samples"].append({"scenario": name, "history": [x["op"] for x in t["h"]], "action": {k: v for k, v in t["a"].items() if v not in ("", 0, -1)}, "result": t["res"]})
         except Exception:
             pass
+    # (5) implementation -> specification: seeded random histories on the real library, every step judged by TLC
+    if not only or "driver" in only.split(","):
+        ddir = os.path.join(run, "driver")
+        os.makedirs(ddir)
+        nchunks = 8 if tier == "quick" else 16
+        per = 8 if tier == "quick" else 60
+        length = 50 if tier == "quick" else 100
+        def one(ci):
+            tr = os.path.join(ddir, "drv%d.ndjson" % ci)
+            r = sh([VH, "drive", "--out", tr, "--seed", str(seed() * 1000 + ci), "--n", str(per), "--len", str(length), "--ser-every", "3"], timeout=3600)
+            return json.loads(r.stdout.strip().splitlines()[-1]), validate_trace(spec, tr, "driver/drv%d" % ci)
+        from concurrent.futures import ThreadPoolExecutor
+        with ThreadPoolExecutor(max_workers=8) as ex:
+            outs = list(ex.map(one, range(nchunks)))
+        dops = {}
+        for ds, v in outs:
+            result["driver_histories"] = result.get("driver_histories", 0) + ds["histories"]
+            result["driver_steps"] = result.get("driver_steps", 0) + ds["steps"]
+            for k, c in ds["ops"].items():
+                dops.setdefault(k, [0, 0])
+                dops[k][0] += c[0]
+                dops[k][1] += c[1]
+            result["validated_steps"] += v["steps"]
+            result["verdicts"] += v["verdicts"]
+            result["drift"] += v["drift"]
+            result["unmodelled"] += v["unmodelled"]
+            result["tool_errors"] += v["tool_errors"]
+        result["driver_ops_tried_ok"] = dops
     result["wall"] = time.time() - t0
     os.makedirs(os.path.dirname(cache), exist_ok=True)
     json.dump(result, open(cache, "w"))
@@ -410,19 +438,23 @@ def check_e1(prop, tier):
             known.setdefault(hit[0]["id"], hit[0])
             continue
         viol += 1
-        path = write_replay(prop, viol, v)
-        print("VIOLATION property=%s replay=%s" % (prop, path))
-        log("   predicate %s fails at op %s %s" % (v["pred"], v["op"], json.dumps(v.get("a"))[:200]))
+        if viol <= 25:
+            path = write_replay(prop, viol, v)
+            print("VIOLATION property=%s replay=%s" % (prop, path))
+            log("   predicate %s fails at op %s %s" % (v["pred"], v["op"], json.dumps(v.get("a"))[:200]))
+    if viol > 25:
+        log("   ... and %d more violating steps (not listed)" % (viol - 25))
     for fid, f in known.items():
         print("KNOWN-FINDING: property=%s %s" % (prop, f["what"]))
     if res["drift"]:
         print("DRIFT steps=%d (real library and specification disagree without any property predicate failing)" % res["drift"])
     ev = {"property_id": prop, "tier": tier, "seed": seed(), "level": "model_checking",
           "coverage": {"states": max(1, res["design_states"] + res["states"]), "transitions": max(1, res["design_transitions"] + res["transitions"]),
-                       "traces_validated_against_impl": res["replayed"], "samples": res["samples"][:5] or ["none"],
+                       "traces_validated_against_impl": res["replayed"] + res.get("driver_histories", 0), "samples": res["samples"][:5] or ["none"],
                        "replayed_transitions_equal_to_spec": res["matched"], "replayed_transitions_different": res["mismatched"],
                        "full_observation_steps_evaluated_by_tlc": res["validated_steps"], "drift_steps": res["drift"],
-                       "per_operation_replayed": res["ops"], "design_findings": res["design_findings"],
+                       "per_operation_replayed": res["ops"], "driver_histories": res.get("driver_histories", 0), "driver_steps": res.get("driver_steps", 0),
+                       "driver_ops_tried_ok": res.get("driver_ops_tried_ok", {}), "unmodelled_steps": res["unmodelled"], "design_findings": res["design_findings"],
                        "known_findings_hit": sorted(known.keys()), "scenarios": res["scenarios"]},
           "assumptions": ["TLC, CommunityModules Json reader", "harness projection (harness/src/core.rs)", "kind <-> ElementName concretisation"],
           "wall_s": round(time.time() - t0, 2), "violations": viol}
@@ -434,6 +466,39 @@ def check_e1(prop, tier):
     return 1 if viol else 0
 
 
+def replay_e1(prop, path):
+    """re-execute a recorded violating history on the current tree and let TLC judge it again"""
+    build()
+    run = os.path.join(WORK, "E1-replay")
+    shutil.rmtree(run, ignore_errors=True)
+    os.makedirs(run)
+    spec = prep_spec(run)
+    r = json.load(open(path))
+    h = list(r.get("h") or [])
+    if r.get("a") and (not h or h[-1] != r["a"]):
+        h.append(r["a"])
+    inp = os.path.join(run, "in.ndjson")
+    open(inp, "w").write(json.dumps({"fix": r.get("fix") or [], "h": h}) + "\n")
+    sh([VH, "histories", "--in", inp, "--out", os.path.join(run, "trace.ndjson"), "--models", "2", "--ser"])
+    v = validate_trace(spec, os.path.join(run, "trace.ndjson"), "replay")
+    kf = known_findings()
+    bad = 0
+    for x in v["verdicts"]:
+        if x["kind"] in ("state", "action", "state-at-reset") and x["prop"] == prop:
+            if any(f["id"] in x.get("kf", []) for f in kf.get("findings", [])):
+                print("KNOWN-FINDING: property=%s %s (step %d, %s)" % (prop, x["pred"], x["step"], x["op"]))
+            else:
+                bad += 1
+                print("VIOLATION property=%s replay=%s" % (prop, path))
+                log("   predicate %s fails at step %d op %s" % (x["pred"], x["step"], x["op"]))
+    if v["tool_errors"]:
+        log("TOOL ERRORS: " + "; ".join(v["tool_errors"]))
+        return 1 if bad else 2
+    if not bad:
+        print("replay: property %s holds on this history (%d steps judged by TLC)" % (prop, v["steps"]))
+    return 1 if bad else 0
+
+
 def main(argv):
     try:
         if not argv:
@@ -443,6 +508,8 @@ def main(argv):
             build()
             return 0
         prop = argv[0]
+        if len(argv) > 2 and argv[1] == "--replay":
+            return replay_e1(prop, argv[2])
         tier = argv[1] if len(argv) > 1 else os.environ.get("VERIF_TIER", "quick")
         if prop in E1_PROPS:
             return check_e1(prop, tier)
